@@ -1,0 +1,52 @@
+//go:build verif
+
+// Machine-checked contracts for package main (cmd/falco), read by /verif/govc.
+//
+// C04: the verdict chain  printLinterError -> run -> Run -> runLint.
+// `$x` in a postcondition denotes the local variable x of the function at the return.
+
+package main
+
+//@ pred effsev(r *Runner, le *linter.LintError) = has(r.overrides, string(le.Rule)) ? r.overrides[string(le.Rule)] : le.Severity
+
+//@ func (*Runner).printLinterError [C04]
+//@   requires r != nil && err != nil && r.config != nil
+//@   ensures [errors] r.errors == old(r.errors) + b2i(severity == linter.ERROR)
+//@   ensures [warnings] r.warnings == old(r.warnings) + b2i(severity == linter.WARNING)
+//@   ensures [infos] r.infos == old(r.infos) + b2i(severity == linter.INFO)
+//@   assigns r.errors, r.warnings, r.infos, external
+
+//@ func (*Runner).parseVCL [C04]
+//@   requires r != nil && r.config != nil
+//@   ensures [result-or-error] (err == nil) == (result != nil)
+//@   ensures [parse-error-kind] err != nil ==> err == ErrParser
+//@   assigns foreign, external
+
+//@ func (*Runner).run [C04]
+//@   requires r != nil && r.config != nil && main != nil && r.errors >= 0 && r.errors < 1000000000
+//@   ensures [result-or-error] err != nil ==> result == nil
+//@   ensures [main-parsed] err == nil && mode == RunModeLint ==> result != nil && result.AST != nil
+//@   ensures [fatal-include-error] err == nil && mode == RunModeLint ==> $lt != nil && $lt.FatalError == nil
+//@   loop 1 invariant r != nil && r.config != nil && r.errors == old(r.errors) && r.overrides == old(r.overrides)
+//@   loop 2 invariant r != nil && r.config != nil && r.errors >= old(r.errors) && ((r.errors > old(r.errors)) == (exists j int :: 0 <= j && j <= rangeindex && effsev(r, $lt.Errors[j]) == linter.ERROR))
+//@   loop 2 assume forall s string :: base(r.lintErrors[s]) != base($lt.Errors)
+//@   loop 2 invariant r.overrides == old(r.overrides) && r.errors < 1000000000 + rangeindex + 1
+//@   ensures [error-verdict] err == nil && mode == RunModeLint ==> ((r.errors > old(r.errors)) == (exists j int :: 0 <= j && j < len($lt.Errors) && effsev(r, $lt.Errors[j]) == linter.ERROR))
+
+//@ func (*Runner).Run [C04]
+//@   requires r != nil && r.config != nil && r.errors == 0
+//@   ensures [result-or-error] err == nil ==> result != nil
+//@   ensures [vcl-is-run-result] err == nil ==> result.Vcl == $vcl && ($vcl != nil ==> $vcl.AST != nil)
+//@   ensures [plain-mode-propagates] err == nil && !r.config.Json ==> result.Vcl != nil
+//@   ensures [counts-reported] err == nil ==> result.Errors == r.errors && result.Warnings == r.warnings && result.Infos == r.infos
+
+//@ func runLint [C04]
+//@   requires runner != nil && runner.config != nil && runner.errors == 0
+//@   ensures [exit-on-run-error] result == nil ==> $result != nil && $result.Errors <= 0 && $result.Vcl != nil
+//@   ensures [exit-on-syntax-error] $result != nil && $result.Vcl == nil ==> result == ErrExit
+//@   ensures [exit-on-errors] $result != nil && $result.Errors > 0 ==> result == ErrExit
+
+// Assumed (unchecked) contract on the resolver interface: a resolver that reports no error returns a file.
+//@ extern iface resolver.Resolver.MainVCL
+//@   pure
+//@   ensures err == nil ==> result != nil
